@@ -182,3 +182,77 @@ prop(
     technique="Lean 4 proof (abstract codec laws + induction over feeds) + correspondence lane + whole-buffer encoding_rs oracle",
     design_ref="DESIGN.md section 4 C13",
 )
+
+
+prop(
+    "C11",
+    ["LolHtml.Thm.C11"],
+    [{"lane": "lex", "n_quick": 2000, "n_thorough": 50000}],
+    LEX_RULE,
+    ["proved for observing controllers (handlers that inspect and may FAIL at any invocation but do not mutate); rewritten tokens / removed content / partly emitted text nodes (the property's documented exceptions) are exercised by lanes only",
+     "an end-handler failure happens after every received byte was emitted; the bail-out handlers are not run then (as coded and as the repository's own test expects)",
+     MODEL_SCOPE],
+    level_text=("Lean 4 theorem C11_bailout_write: for every table, flag schedule, chunking, memory limit and preallocation, "
+                "when a write fails (handler error at any token, Arena::append, Arena::init_with, parser) after successful "
+                "writes, the sink holds written.take j ++ bail-out-handler output ++ written.drop j with the matching flag "
+                "(handlers ran exactly once), and the prefix written.take j without it (no handler ran); C11_flags: each flag "
+                "recovers only its own kind, ambiguity never; C11_no_bailout_on_success. Built on the C01 tiling invariant, "
+                "which holds at the moment of the error."),
+    level_note="Trusted: Lean kernel; model of transform_stream/{mod,dispatcher}.rs and memory/arena.rs (lanes lex, mem, memts).",
+    technique="Lean 4 proof (tiling invariant holds at every failure point) + correspondence lanes",
+    design_ref="DESIGN.md section 4 C11",
+)
+
+prop(
+    "C12",
+    ["LolHtml.Thm.C12"],
+    [{"lane": "lex", "n_quick": 2000, "n_thorough": 50000}],
+    LEX_RULE,
+    ["content written by end / bail-out handlers goes through the text encoder and is never an empty slice (CleanEnds; the encoder fact is C13_encoder)",
+     "'prefix of the failure-free run' is proved only as monotonicity of the sink log (C12_monotone); the comparison of two runs is checked by lanes",
+     MODEL_SCOPE],
+    level_text=("Lean 4 theorems for EVERY controller (mutating ones included), table, chunking and failure point: the sink log "
+                "is the encoding notification, then events none of which is a zero-length chunk, then the zero-length chunk iff "
+                "end() succeeded and then last (C12_protocol); a failed call poisons the rewriter and every later call is the "
+                "documented panic with the log unchanged (C12_fail_stop, C12_error_poisons); no call retracts output "
+                "(C12_monotone)."),
+    level_note="Trusted: Lean kernel; model of rewriter/mod.rs guarded!, transform_stream, dispatcher (lane lex).",
+    technique="Lean 4 proof (generic sink-preservation over the interpreter + monotone log invariant) + correspondence lane",
+    design_ref="DESIGN.md section 4 C12",
+)
+
+prop(
+    "C17",
+    ["LolHtml.Thm.C17_CApi"],
+    [{"lane": "capi", "n_quick": 1500, "n_thorough": 20000}],
+    "lane capi: mirrored handler scripts executed through the real extern C entry points and through the Rust API (18 op shapes, streaming handlers, Stop at handler indices, invalid UTF-8, leaks, API call orders allowed by lol_html.h)",
+    ["pointer-level memory safety of the unsafe blocks and unwinding across extern C are not modelled",
+     "the Rust API is an abstract state machine R; C-run = R-run is proved per entry point (unit level), whole-run sink equality is checked by the lane", PKG_SCOPE],
+    level_text=("Lean 4 theorems over an ownership-ledger model of c-api/src for every R, handler program and call history: "
+                "handles never reused, freed objects never touched (C17_ownership_ledger), drop callback exactly once "
+                "(C17_drop_callback_once), end takes the inner value and free afterwards is a no-op on it, invalid UTF-8 never "
+                "reaches R, Ok/Err map to 0/-1 with LAST_ERROR set on the calling thread (C17_failure_sets_last_error), each "
+                "entry point = decode; call R; encode (C17_wrapper_unit). The full header-precondition safety statement is "
+                "REFUTED on the attribute-iterator history (known finding) and proved under the strengthened policy. PARTIAL."),
+    level_note="Trusted: Lean kernel; ledger model of c-api/src/*.rs and lol_html.h tied by lane capi.",
+    technique="Lean 4 proof (invariant over call histories of an ownership ledger) + correspondence lane",
+    design_ref="DESIGN.md section 4 C17",
+)
+
+prop(
+    "C18",
+    ["LolHtml.Thm.C18_Isolation"],
+    [{"lane": "capi", "n_quick": 800, "n_thorough": 10000},
+     {"lane": "thr", "n_quick": 300, "n_thorough": 3000, "impl_only": True}],
+    "lane thr (impl only): the same rewrite on N threads with random yields, a send::HtmlRewriter migrated after every write, concurrent selector parsing, LAST_ERROR across threads; lane capi as for C17",
+    ["data races / memory ordering are not modelled; real threads are exercised by lane thr only",
+     "the list of global items is re-extracted from every *.rs under src/ and c-api/src/ on every run (translate/globals2lean.py)", PKG_SCOPE],
+    level_text=("Lean 4 theorems: the generated list of global items has no mutable item in the core crate and only the "
+                "thread-local LAST_ERROR in the C API (C18_no_globals, by decide on the list re-extracted from the sources); "
+                "an operation by thread t changes only slot t and take returns the latest error of the same thread "
+                "(C18_last_error_isolated, C18_take_latest); a run is a function of (policy, program, calls). PARTIAL: "
+                "interleavings themselves are not modelled."),
+    level_note="Trusted: Lean kernel; globals translator; ledger model (lane capi); real threads only sampled (lane thr).",
+    technique="Lean 4 proof (decidable obligation on the translated global-items list + per-thread slot invariant) + thread lane",
+    design_ref="DESIGN.md section 4 C18",
+)
